@@ -158,7 +158,11 @@ def powNeg [Atan2 α] (a : Cx α) (j : Nat) : Cx α :=
   Cx.rmul (Fn.pow (cabs a) e) (expj (angle a * e))
 
 /-- `CztPlanImpl(n, m, w, a)` followed by `solve(x)`; `fwd` = `FftPlan(n2)`, `skipA` = outcome of the
-    test `!(abs(a - 1) > eps(a.re))` (evaluated on the doubles by the caller) -/
+    test `!(abs(a - 1) > eps(a.re))` (evaluated on the doubles by the caller).
+    The chirp is `expj(angle(w) · k²/2)`.  Since /repo commit 4e9c74f the code forms that phase in
+    `long double` and reduces it mod 2π before the call of `expj`; over ℝ this is the same value, at
+    `Float` the model (plain double product) differs from the code by ≈ eps·|arg w|·N²/2 in the phase,
+    which is why the `czt` / large-prime correspondence tags carry a looser tolerance. -/
 def czt [Atan2 α] (fwd : Nat → Vec α → Vec α) (n m : Nat) (w a : Cx α) (skipA : Bool) (x : Vec α) : Vec α :=
   let wa : α := angle w
   let chirp := mk (n - 1 + max m n) (fun i =>
